@@ -31,14 +31,16 @@ REQUIRED_HOOKS = ["H-assoc", "H-platform"]
 
 def bounds(tier):
     return {"cases": 260 if tier == "quick" else 8000, "cli_cases": 6 if tier == "quick" else 80,
-            "history": 16 if tier == "quick" else 160, "stateful": 64 if tier == "quick" else 2000}
+            "history": 16 if tier == "quick" else 160, "stateful": 64 if tier == "quick" else 2000,
+            "unresolvable": 120 if tier == "quick" else 3000}
 
 
 def required_cells(tier):
     return ["leak-sensitive:macro", "leak-sensitive:once", "leak-sensitive:memo", "subset:size-1", "order:reversed",
             "platforms>=3", "commands>=4", "tu-boundary-snapshots", "cli:-p", "forced-include", "history>=200-commands",
             "history>=200-once-skips", "db:no-directory-after-directory", "db:relative-directory",
-            "stateful-option:same-compiler-twice", "stateful-option:different-values", "same-arguments-different-directory"]
+            "stateful-option:same-compiler-twice", "stateful-option:different-values", "same-arguments-different-directory",
+            "class:U-unresolvable-includes", "header-missing-for-one-command-found-by-another", "unknown-compiler-after-known-one"]
 
 
 def gen_case(rng):
@@ -132,6 +134,7 @@ def check_stateful_options(ctx, rng, base, index):
     entries = {p: [] for p in plats}
     want = {p: set() for p in plats}
     flat = []
+    unknown_after_known = False
     for j in range(n):
         k = f"k{j}"
         src = os.path.join(root, "src", k + ".cu")
@@ -140,11 +143,17 @@ def check_stateful_options(ctx, rng, base, index):
         arch = rng.choice([70, 75, 80, 89, 90])
         sp = rng.choice([["--gpu-architecture=sm_%d"], ["--gpu-architecture", "sm_%d"], ["--gpu-code=sm_%d"],
                          ["-gencode", "arch=compute_%d,code=sm_%d"], [], ["--gpu-architecture=compute_%d"]])
-        argv = ["nvcc"] + [x.replace("%d", str(arch)) for x in sp] + (["-fopenmp"] if rng.random() < 0.3 else []) + ["-c", src]
+        # some commands use another known compiler or a wrapper the analysis does not know (no modes, no passes for it)
+        comp = rng.choice(["nvcc", "nvcc", "nvcc", "g++", "mpicxx", "/opt/cray/bin/CC"])
+        if comp != "nvcc":
+            sp = []
+        argv = [comp] + [x.replace("%d", str(arch)) for x in sp] + (["-fopenmp"] if rng.random() < (0.3 if comp == "nvcc" else 0.8) else []) + ["-c", src]
         p = plats[j % len(plats)]
         entries[p].append({"file": src, "directory": root, "arguments": argv})
         flat.append(argv)
-        exp, status = ccmodel.expected(builtin, "nvcc", argv[1:])
+        exp, status = ccmodel.expected(builtin, argv[0], argv[1:])
+        if status == "unknown" and "-fopenmp" in argv and any(a[0] in ("nvcc", "g++") and "-fopenmp" in a for a in flat[:-1]):
+            unknown_after_known = True
         for pname, v in exp.items():
             g = gcc.preprocess(src, defines=v["cmd"][0] + v["extra"][0])
             if not g["ok"]:
@@ -153,8 +162,10 @@ def check_stateful_options(ctx, rng, base, index):
             want[p] |= {(k, int(m.rsplit("_", 1)[1])) for m in g["markers"]}
     problems = []
     cells = {"stateful-option:same-compiler-twice"}
-    if len({tuple(a[1:-2]) for a in flat}) >= 2:
+    if len({tuple(a[1:-2]) for a in flat if a[0] == "nvcc"}) >= 2:
         cells.add("stateful-option:different-values")
+    if unknown_after_known:
+        cells.add("unknown-compiler-after-known-one")
     for order in ("given", "reversed"):
         conf = {}
         try:
@@ -183,6 +194,53 @@ def check_stateful_options(ctx, rng, base, index):
         acc.violated(rec, cells=cells, nontrivial={"commands": flat}, cls="S")
     else:
         acc.held(cells=cells, nontrivial={"commands": flat}, cls="S", sample={"commands": flat})
+
+
+def check_unresolvable(ctx, case, base):
+    """Class U: code bases a compiler would reject because some command cannot find some header (dangling names, or a
+    header that only OTHER commands have on their search path).  No compiler oracle applies; the composition laws do:
+    full run = union of the single-command runs = any permutation, and platform subsets are projections."""
+    acc = ctx.acc
+    rng = ctx.rng("permU" + str(len(case["files"])))
+    shutil.rmtree(base, ignore_errors=True)
+    root, rendered = forest.materialize(case, base)
+    plats = sorted({t["platform"] for t in case["tus"]})
+    problems = []
+    cells = {"class:U-unresolvable-includes"}
+    try:
+        full, ev = run_cbi(case, base, monitor=True)
+        for k, v in ev.counts.items():
+            acc.hook(k, v)
+        missing = [e for e in ev.events if e[0] == "inc" and not e[5]]
+        found = {(e[2], e[4]) for e in ev.events if e[0] == "inc" and e[5]}
+        if any((e[2], e[4]) in found for e in missing):
+            cells.add("header-missing-for-one-command-found-by-another")
+        if not missing:
+            acc.excluded("nothing-unresolvable", cls="U")
+            return
+        singles = [run_cbi(case, base, tus=[tu])[0] for tu in case["tus"]]
+        if norm(union(singles)) != norm(full):
+            problems.append({"kind": "union-of-single-command-runs (with unresolvable includes)", "diff": forest.diff(union(singles), full)[:6]})
+        for k in range(2):
+            tus = list(case["tus"])
+            tus.reverse() if k == 0 else rng.shuffle(tus)
+            perm, _ = run_cbi(case, base, tus=tus)
+            if norm(perm) != norm(full):
+                problems.append({"kind": "command-order (with unresolvable includes)", "order": [t["file"] for t in tus], "diff": forest.diff(full, perm)[:6]})
+        for sub in itertools.combinations(plats, 1) if len(plats) > 1 else []:
+            so, _ = run_cbi(case, base, tus=[t for t in case["tus"] if t["platform"] in sub])
+            want = {p: v for p, v in full.items() if p in sub}
+            if norm(so) != norm(want):
+                problems.append({"kind": "platform-subset (with unresolvable includes)", "subset": list(sub), "diff": forest.diff(want, so)[:6]})
+    except Exception as e:
+        problems.append({"kind": "exception", "observed": f"{type(e).__name__}: {e}"})
+    nontriv = {"files": {k: str(v) for k, v in case["files"].items()}, "tus": case["tus"]}
+    if problems:
+        acc.violated({"input": dict(case, unresolvable=True), "witness": {"problems": problems[:5], "commands": case["tus"],
+                                                                          "files": {rel: rendered[rel].text for rel in list(rendered)[:10]}}},
+                     cells=cells, nontrivial=nontriv, cls="U")
+    else:
+        acc.held(cells=cells, nontrivial=nontriv, cls="U")
 
 
 def check_same_arguments_other_directory(ctx, rng, base):
@@ -472,6 +530,12 @@ def run_shard(ctx):
         case = gen_case(rng)
         if ctx.mine(i):
             check_case(ctx, case, base, "R", do_cli=(i < b["cli_cases"] * 2 and i % 2 == 0))
+    rng = ctx.rng("unresolvable")
+    for i in range(b["unresolvable"]):
+        case = forest.gen(rng, n_tus=rng.randint(2, 5), n_platforms=rng.randint(1, 3), missing=0.15, findable=False, toggles=True,
+                          computed=False)     # (nested computed includes redefine HDR without #undef: a constraint violation)
+        if ctx.mine(i):
+            check_unresolvable(ctx, case, base)
     rng = ctx.rng("stateful")
     for i in range(b["stateful"]):
         import random as _r
@@ -489,6 +553,9 @@ def run_shard(ctx):
 
 
 def replay(record, ctx):
+    if record["input"].get("unresolvable"):
+        check_unresolvable(ctx, record["input"], os.path.join(ctx.scratch, "c08"))
+        return {"verdict": "violated" if ctx.acc.verdicts["violated"] else "held", "violations": ctx.acc.violations}
     if record["input"].get("stateful"):
         return {"verdict": "unknown", "note": "re-run ./check C08; the witness lists the commands"}
     if len(record["input"]["tus"]) >= 200:
